@@ -94,12 +94,17 @@ def run(chk):
         B = [rng.choice(universe) for _ in range(rng.randint(0, 7))]
         An = [x if rng.random() > 0.15 else None for x in A]
         Bn = [x if rng.random() > 0.15 else None for x in B]
-        variants = [("list", A, B, A, B), ("set", set(A), set(B), A, B), ("series", pd.Series(A, dtype=object), pd.Series(B, dtype=object), A, B),
+        nanobj = lambda: rng.choice([float("nan"), np.float64("nan"), float("inf") - float("inf"), None, np.nan])  # noqa
+        Af = [x if x is not None else nanobj() for x in An]
+        Bf = [x if x is not None else nanobj() for x in Bn]
+        variants = [("list-nan-objects", Af, Bf, An, Bn), ("tuple-nan-objects", tuple(Af), tuple(Bf), An, Bn),
+                    ("ndarray-nan", np.array(Af, dtype=object), np.array(Bf, dtype=object), An, Bn),
+                    ("list", A, B, A, B), ("set", set(A), set(B), A, B), ("series", pd.Series(A, dtype=object), pd.Series(B, dtype=object), A, B),
                     ("series-na", pd.Series(An, dtype=object), pd.Series(Bn, dtype=object), An, Bn),
                     ("list-na", An, Bn, An, Bn), ("tuple", tuple(A), tuple(B), A, B)]
         for cname, ca, cb, ma, mb in variants:
             for fn in ("jaccard_index", "overlap", "overlap_coefficient"):
-                if fn == "jaccard_index" and cname == "list-na":
+                if fn == "jaccard_index" and cname in ("list-na", "list-nan-objects", "tuple-nan-objects", "ndarray-nan"):
                     continue        # documented: missing values are dropped inside Series only
                 if fn != "overlap" and (not [x for x in ma if x is not None] or not [x for x in mb if x is not None]) and fn == "jaccard_index":
                     if not [x for x in ma if x is not None] and not [x for x in mb if x is not None]:
